@@ -9,6 +9,7 @@ rk4
 implicit or backwardeuler
 trapezoidal or cranknicolson
 """
+import copy
 import math
 import sys
 import time
@@ -231,6 +232,7 @@ class timemodel(_coreiterative):
         """ """
         self.reset(itstart=0) # reset cputime and nit
         self.__dict__.pop('jacobian_use', None) # forget jacobian cached by a previous integration
+        self.__dict__.pop('_lastresidual', None) # forget multistep history of a previous integration
         self._remove_monitor_output(monitors)
         return self._solve(f, condition, tsave, stop, flush, monitors, directives)
 
@@ -294,8 +296,8 @@ class timemodel(_coreiterative):
             # specific step(s) to save result(s) and go back to Qn: all requested times reached by this step
             while (isave < nsave) and (self.Qn.time+mindtloc >= tsave[isave]):
                 if tsave[isave] > self.Qn.time:
-                    # compute smaller step with same integrator
-                    self.step(Qnn, tsave[isave]-self.Qn.time)
+                    # compute smaller step with (a copy of) same integrator: its own history is left untouched
+                    copy.copy(self).step(Qnn, tsave[isave]-self.Qn.time)
                 Qnn.it = self._itstart + self._nit
                 results.append(Qnn)
                 if verbose:
